@@ -55,10 +55,26 @@ def evaluate(case):
 @st.composite
 def random_cases(draw):
     C = draw(st.sampled_from([6, 7, 10, 10, 12, 20, 20, 30, 60, 100]))
-    fam = draw(st.sampled_from(["planted", "hard", "hard", "hard", "planted-slack", "uniform", "many-equal", "mid"]))
+    fam = draw(st.sampled_from(["planted", "hard", "hard", "hard", "halves+big", "halves+big", "planted-slack", "uniform", "many-equal", "mid"]))
     if fam == "hard":
         C = max(C, 12)
         fam, values, _ = draw(S.hard_packing(C, max_bins=4, max_len=12))
+    elif fam == "halves+big":
+        # a perfect packing made of one bin of two exact halves and 1-3 bins holding one item above half plus exact fillers: the number of
+        # items of at least half a bin is then optimum + 1 (a bound that counts exact halves as "big" is off by one exactly here)
+        C = 2 * max(6, C // 2)
+        values = [C // 2, C // 2]
+        for _ in range(draw(st.integers(1, 3))):
+            a = draw(st.integers(C // 2 + 1, (3 * C) // 4))
+            rest = C - a
+            pieces = draw(st.integers(2, 3))
+            cuts = sorted(draw(st.lists(st.integers(1, rest - 1), min_size=pieces - 1, max_size=pieces - 1, unique=True))) if rest > pieces else []
+            prev = 0
+            for c in cuts + [rest]:
+                values.append(c - prev)
+                prev = c
+            values.append(a)
+        values = list(draw(st.permutations(values)))[:12]
     elif fam == "planted":
         values = draw(S.planted_packing(C, max_bins=4, max_len=12, slack=False))
     elif fam == "planted-slack":
